@@ -11,7 +11,10 @@ CHECKS['C01'] = {
             '(bit flip, truncation, zero length, appended bytes, other block of same/other length, sparse growth past 64 MiB); '
             'then 3-7 steps of GET/HEAD (with and without hints, direct and over a real HTTP connection), PUT correct body, '
             'PUT wrong body (incl. the corrupt bytes already on disk), PUT with Content-Length != bytes sent, and re-corruption '
-            'of a volume between requests. Non-trivial = some request was served while a corrupt copy of the block was on a '
+            'of a volume between requests. Round 3: stored copies are also changed IN PLACE (same file, same size; bit flip, run of inverted bytes, other block of the '
+            'same length, true content written back) with the exact mtime put back by os.Chtimes (7 of 8) or left to change; 3 cases in 10 follow an aimed script '
+            'read (GET/HEAD served from the copy) -> corrupt that copy in place -> read -> restore in place -> read -> corrupt again -> read, all through one handler '
+            '(no restart), in half of them with no copy on any other volume; in-place changes also occur as ordinary script steps. Non-trivial = some request was served while a corrupt copy of the block was on a '
             'volume, or a PUT arrived while a copy (intact or corrupt) already existed. distinct = fingerprint of '
             '(size class, per-volume mode+initial state, script)',
     'assumptions': [
